@@ -262,6 +262,15 @@ def make_overlay(d, pkg, subs):
         for f in sorted(os.listdir(src)):
             if f.endswith('.go'):
                 rep[os.path.join(REPO, pkg, 'zz_' + f)] = os.path.join(src, f)
+        # harness-only exports of package commitlog that a driver in package server needs (harness/server/<sub>/export/*.go):
+        # overlaid into REPO/server/commitlog under the name the owning check uses (checks/c11.py), so that the
+        # sub-directory also compiles on its own (bin/setup)
+        exp = os.path.join(src, 'export')
+        if src != base and os.path.isdir(exp):
+            gos = sorted(f for f in os.listdir(exp) if f.endswith('.go'))
+            for i, f in enumerate(gos):
+                name = 'zz_%s_export_verif%s.go' % (os.path.basename(src), '' if i == 0 else str(i))
+                rep[os.path.join(REPO, 'server', 'commitlog', name)] = os.path.join(exp, f)
     p = os.path.join(d, 'overlay.json')
     with open(p, 'w') as fh:
         json.dump({'Replace': rep}, fh)
